@@ -35,6 +35,7 @@ func runC22(w *World, r *Report) {
 	r.Rule("R-C22-4", "no call of jwt ParseUnverified anywhere in the repository", 1)
 	c22RevocationAcknowledged(w, r)
 	c22KeySetReplaced(w, r)
+	c21FailedLookup(w, r, "R-C22-9", []string{"IsIDBlacklisted"}, 1)
 
 	op := w.pkg("internal/server/oauth")
 	if op == nil {
